@@ -59,7 +59,7 @@ class St:
         return s
 
     def assume(self, c):
-        return self.but(pc=self.pc + (c,))
+        return self.but(pc=self.pc + (z3.simplify(c),))
 
     def fact(self, c):
         return self.but(facts=self.facts + (c,))
